@@ -18,11 +18,11 @@ structure CInv (x : Conn) : Prop where
 
 /-- the assumptions about the environment under which "at most one result" holds: the client does not reuse a
 RequestId on a connection; the leader answers a LOCK / UNLOCK only on the link instance it arrived on and only once;
-no answer overtakes `Write`'s bookkeeping (`early`). -/
+(whether an answer overtakes `Write`'s bookkeeping — `early` — no longer matters). -/
 def Ok (s : Node) : Event → Prop
   | .request c _ q => ∀ x, s.conns[c]? = some x →
       (∀ rid, reqRid q = some rid → rid ∉ x.asked) ∧ (∀ ct md cmd rep, q = .lk ct md cmd rep → ct = .lock ∨ ct = .unlock)
-  | .leaderMsg c (.lockRes r) early => early = false ∧ ∀ x l, s.conns[c]? = some x → x.link = some l → r.rid ∈ l.pend
+  | .leaderMsg c (.lockRes r) _ => ∀ x l, s.conns[c]? = some x → x.link = some l → r.rid ∈ l.pend
   | _ => True
 
 def OkRun : Node → List Event → Prop
@@ -321,17 +321,15 @@ theorem clearLatest_latest {l : Link} {r : Nat} {ct : CType} (h : (clearLatest l
   · cases h
   · rename_i hne; rw [if_neg hne]; exact ⟨h, rfl, hne⟩
 
-theorem clearLatestE_pend (e : Bool) (l : Link) (r : Nat) : (clearLatestE e l r).pend = l.pend := by
-  unfold clearLatestE; split
-  · rfl
-  · exact clearLatest_pend l r
+theorem clearLatestE_pend (e : Bool) (l : Link) (r : Nat) : (clearLatestE e l r).pend = l.pend :=
+  clearLatest_pend l r
 
 theorem clearLatestE_latest {e : Bool} {l : Link} {r : Nat} {ct : CType} (h : (clearLatestE e l r).latestT = some ct) :
-    l.latestT = some ct ∧ (clearLatestE e l r).latestR = l.latestR := by
-  unfold clearLatestE at h ⊢
-  split
-  · rename_i he; rw [if_pos he] at h; exact ⟨h, rfl⟩
-  · rename_i he; rw [if_neg he] at h; exact ⟨(clearLatest_latest h).1, (clearLatest_latest h).2.1⟩
+    l.latestT = some ct ∧ (clearLatestE e l r).latestR = l.latestR :=
+  ⟨(clearLatest_latest h).1, (clearLatest_latest h).2.1⟩
+
+theorem relay_early (s : Node) (c : Nat) (x : Conn) (l : Link) (msg : LeaderMsg) (early : Bool) :
+    relay s c x l msg early = relay s c x l msg false := rfl
 
 /-- the link after a lock result for `ρ` was read in order (not `early`): `ρ` is no longer pending -/
 theorem answeredLk_ok {x : Conn} {l : Link} {ρ : Nat} (hx : CInv x) (hl : x.link = some l) :
@@ -347,8 +345,7 @@ theorem answeredLk_ok {x : Conn} {l : Link} {ρ : Nat} (hx : CInv x) (hl : x.lin
   · exact List.Nodup.erase _ hnd
   · intro ct hct hlu
     simp only [answeredLk, clearLatestE] at hct ⊢
-    obtain ⟨h1, h2, h3⟩ := clearLatest_latest (by simpa using hct)
-    simp only [Bool.false_eq_true, if_false] at h2 ⊢
+    obtain ⟨h1, h2, h3⟩ := clearLatest_latest hct
     rw [h2]
     exact mem_erase_of_ne' (hx.latestPend l ct hl h1 hlu) h3
   · exact nodup_not_mem_erase hnd
@@ -483,9 +480,9 @@ theorem cinv_relay {s : Node} {c : Nat} {x : Conn} {l : Link} {msg : LeaderMsg} 
             intro a' md' h
             rw [haw] at h; cases h
             refine ⟨hk, ct, ?_, hlu, ?_, ?_⟩
-            · simp only [answeredLk, clearLatestE, clearLatest, Bool.false_eq_true, if_false]
+            · simp only [answeredLk, clearLatestE, clearLatest]
               rw [if_neg (by rw [hlat]; exact hne)]; exact hct
-            · simp only [answeredLk, clearLatestE, clearLatest, Bool.false_eq_true, if_false]
+            · simp only [answeredLk, clearLatestE, clearLatest]
               rw [if_neg (by rw [hlat]; exact hne)]; exact hlat
             · exact mem_erase_of_ne' hap hne
           exact this
@@ -633,11 +630,11 @@ theorem ninv_step {s : Node} {e : Event} (hs : NInv s) (hok : Ok s e) : NInv (st
         simp only at hy
         rcases List.mem_or_eq_of_mem_set hy with hy | rfl
         · exact hs y hy
-        · apply cinv_relay (hget hx) hl
+        · rw [relay_early]
+          apply cinv_relay (hget hx) hl
           intro r hr
           subst hr
-          obtain ⟨h1, h2⟩ := hok
-          exact ⟨h1, fun _ _ => h2 x l hx hl⟩
+          exact ⟨rfl, fun _ _ => hok x l hx hl⟩
   | linkDown c =>
     intro y hy
     simp only [step, stepLinkDown] at hy
@@ -718,7 +715,7 @@ def okb (s : Node) : Event → Bool
       (match reqRid q with | some rid => !x.asked.contains rid | none => true) &&
       (match q with | .lk ct _ _ _ => decide (ct = .lock ∨ ct = .unlock) | _ => true)
   | .leaderMsg c (.lockRes r) early =>
-    !early && (match s.conns[c]? with
+    (match s.conns[c]? with
       | none => true
       | some x => match x.link with | none => true | some l => l.pend.contains r.rid)
   | _ => true
@@ -742,12 +739,10 @@ theorem okb_ok {s : Node} {e : Event} (h : okb s e = true) : Ok s e := by
   | leaderMsg c msg early =>
     cases msg with
     | lockRes r =>
-      simp only [okb, Bool.and_eq_true] at h
-      refine ⟨by simpa using h.1, ?_⟩
+      simp only [okb] at h
       intro x l hx hl
-      have := h.2
-      simp only [hx, hl] at this
-      simpa using this
+      simp only [hx, hl] at h
+      simpa using h
     | initRes _ _ _ => trivial
     | callRes _ _ _ => trivial
     | other => trivial
